@@ -566,5 +566,7 @@ def replay(case):
 LEVEL_TEXT = ('The sequential quantifier (method x builder kind x owner outcome x timing x target) is finite and enumerated '
               'completely on every run with a twin-run oracle; the racing straggler is explored by the deterministic scheduler '
               'under a preemption bound.')
-LEVEL_NOTE = ('Trusted: the twin comparison. The racing part owns the schedule only at the library\'s lock operations and file-system '
-              'calls (module-global interposition); preemption between two pure-Python statements is not explored.')
+LEVEL_NOTE = ('Trusted: the twin comparison. The racing part owns the schedule at the library\'s lock operations and file-system calls '
+              '(module-global interposition) and, in line mode (sys.settrace), at every executed line of library code: every single '
+              'preemption is enumerated, pairs are drawn (250 per (method, owner) in quick, 6000 in thorough) from the run as '
+              'preempted by the first one; three or more preemptions are not explored.')
